@@ -499,6 +499,17 @@ func runC16(w *World, c *Check) {
 				}
 			}
 			guard := afa.MatchGuard(FalsePass(`\*final`))
+			if !okA {
+				// the value-returning form: (list, final) handed back instead of written through pointers
+				for _, rs := range afa.returnsOf() {
+					if len(rs) >= 1 && (rs[0] == substParams(af, "append(s, [φ(value|value[:(len(value) - 1)])])") || rs[0] == substParams(af, "append(s, [φ(value[:(len(value) - 1)]|value)])")) {
+						okA = true
+					}
+				}
+				if okA {
+					guard = afa.MatchGuard(FalsePass(`final`))
+				}
+			}
 			c.Decide(okA && len(guard) == 1, "C16.realmkeys", FuncKey(af), "append-until-final", w.Pos(af.Pos()), "nothing is appended once the final flag is set; a trailing * sets it and is cut off", fmt.Sprintf("append form ok=%v, final guards=%d", okA, len(guard)))
 		}
 	}
